@@ -11,6 +11,8 @@ import Driver.OpsDist
 import Driver.OpsGui
 import Driver.OpsLatPlanar2DCode
 import Driver.OpsLatPlanar3DCode
+import Driver.OpsLatRhombicPlanarCode
+import Driver.OpsLatRhombicToricCode
 import Driver.OpsLatRotatedPlanar2DCode
 import Driver.OpsLatRotatedPlanar3DCode
 import Driver.OpsLatToric2DCode
@@ -27,7 +29,7 @@ open Panqec
     (`none` = not my op); the first that answers wins. -/
 
 def handlers : List (List String → Option String) :=
-  [Drv.handleAnalysis, Drv.handleBatch, Drv.handleBits, Drv.handleCli, Drv.handleCode, Drv.handleDecoders, Drv.handleDeform, Drv.handleDist, Drv.handleGui, Drv.handleLatPlanar2DCode, Drv.handleLatPlanar3DCode, Drv.handleLatRotatedPlanar2DCode, Drv.handleLatRotatedPlanar3DCode, Drv.handleLatToric2DCode, Drv.handleLatToric3DCode, Drv.handleLatXCubeCode, Drv.handleMask, Drv.handleNoise, Drv.handleSim, Drv.handleSweep]
+  [Drv.handleAnalysis, Drv.handleBatch, Drv.handleBits, Drv.handleCli, Drv.handleCode, Drv.handleDecoders, Drv.handleDeform, Drv.handleDist, Drv.handleGui, Drv.handleLatPlanar2DCode, Drv.handleLatPlanar3DCode, Drv.handleLatRhombicPlanarCode, Drv.handleLatRhombicToricCode, Drv.handleLatRotatedPlanar2DCode, Drv.handleLatRotatedPlanar3DCode, Drv.handleLatToric2DCode, Drv.handleLatToric3DCode, Drv.handleLatXCubeCode, Drv.handleMask, Drv.handleNoise, Drv.handleSim, Drv.handleSweep]
 
 def handleToks (toks : List String) : String :=
   match handlers.findSome? (fun h => h toks) with
